@@ -37,6 +37,16 @@ c20f61a:C01
 abf1ab3:C16
 93f0ead:C16
 eb6719b:C08
+5445fef:C01
+6478494:C02
+93cb533:C18
+614b0db:C17
+f474c9d:C17
+e0ba138:C09
+2930c12:C09
+7e3acd0:C19
+4f685e4:C08
+e53eedd:C08
 "
 [ -n "$REVERT_ONLY" ] && PAIRS="$REVERT_ONLY"
 for pair in $PAIRS; do
